@@ -69,7 +69,22 @@ Boundary == <<
   << L("A", "int8"), L("B", "map[string]int"), EV("E1", << L("C", "<-chan int"), L("D", "int64") >>) >>,
   \* 30, 31 defined types over predeclared ones next to their underlying types
   << L("A", "string"), L("B", "opticsdrv.Label"), L("C", "opticsdrv.Tag"), L("D", "uint8"), L("E", "opticsdrv.Byte8"), L("F", "opticsdrv.Count"), L("G", "int64") >>,
-  << L("A", "opticsdrv.Tag"), EV("E1", << L("B", "opticsdrv.Byte8"), L("C", "opticsdrv.Count") >>), L("D", "opticsdrv.Label") >>
+  << L("A", "opticsdrv.Tag"), EV("E1", << L("B", "opticsdrv.Byte8"), L("C", "opticsdrv.Count") >>), L("D", "opticsdrv.Label") >>,
+  \* 32-34 a tag names the field, the Go name does not: a tagged field whose Go name and type also belong to an earlier
+  \*       field inside a value-embedded struct; a tagged field inside the embedded struct whose Go name and type belong to
+  \*       an earlier field of the outer struct; tags that are the Go names of other fields of the same type
+  << EV("E1", << L("Title", "int16"), L("B", "int8") >>), LT("Title", "int16", "title", "title"), L("C", "int64") >>,
+  << L("X", "int32"), EV("E1", << L("P", "int8"), LT("X", "int32", "inner", "inner") >>), L("Q", "int8") >>,
+  << LT("A", "int16", "B", "B"), L("B", "int16"), LT("C", "int16", "A", "A"), L("D", "int16") >>
 >>
 BoundarySet == {Boundary[i] : i \in 1..Len(Boundary)}
+\* hseq only (C03; the optics generators have no values for these types): two different defined types that print alike -
+\* the function-local `Twin` and the package-level `Twin` (alias PkgTwin) - the wanted one not being the first; one of them only
+BoundaryHseq == <<
+  << L("A", "PkgTwin"), L("B", "Twin"), L("C", "string"), EV("E1", << L("D", "Twin"), L("F", "PkgTwin") >>) >>,
+  << L("A", "Twin"), L("B", "PkgTwin"), L("C", "int8") >>,
+  << L("A", "int8"), L("B", "PkgTwin"), L("C", "string") >>,
+  << L("A", "Twin"), EV("E1", << L("B", "string") >>) >>
+>>
+BoundarySetHseq == BoundarySet \cup {BoundaryHseq[i] : i \in 1..Len(BoundaryHseq)}
 ====
